@@ -270,6 +270,7 @@ fn check_on(db: &Db, c: &DCase) -> CaseReport {
 /// Compare one tool result with an expectation; Some((sig, why)) on mismatch.
 fn judge_result(c: &QCase, r: &R) -> Option<(String, String)> {
     match (&c.expect, r) {
+        (Expect::Pair { .. }, _) => Some(("malformed-case".into(), "pair expectation".into())),
         (Expect::Error { .. }, R::Err { .. }) => None,
         (Expect::Error { .. }, R::Ok(_)) => Some(("number-instead-of-error".into(), r.brief())),
         (_, R::Err { .. }) => Some(("error-instead-of-value".into(), r.brief())),
